@@ -130,7 +130,6 @@ type differ struct {
 	diffs  []string
 	nStr   int
 	nStm   int
-	baselineLost int
 }
 
 func (d *differ) add(path, msg string) {
@@ -186,13 +185,6 @@ func (d *differ) cmp(path string, a, b types.Object, depth int) {
 			return
 		}
 		d.cmp(path, a, b, depth+1)
-		return
-	}
-	if a == nil && b != nil {
-		// The unencrypted baseline lost an object that the encrypted pipeline kept: the unkeyed fast path
-		// (writeLazyObjectStreamObject) copies an undecoded member verbatim without writing the objects it
-		// references.  That is a defect of the plain writer, not of the encryption round trip: counted, not a diff.
-		d.baselineLost++
 		return
 	}
 	if a == nil || b == nil {
@@ -292,8 +284,6 @@ func trunc(b []byte) []byte {
 }
 
 // compareDocs walks Root and Info of both documents.
-var baselineLostTotal int
-
 func compareDocs(ca, cb *model.Context) (diffs []string, nStr, nStm int) {
 	defer func() { baselineLostTotal += 0 }()
 	d := &differ{ca: ca, cb: cb, seen: map[pairKey]bool{}}
@@ -309,6 +299,5 @@ func compareDocs(ca, cb *model.Context) (diffs []string, nStr, nStm int) {
 	if ca.PageCount != cb.PageCount {
 		d.add("PageCount", fmt.Sprintf("%d vs %d", ca.PageCount, cb.PageCount))
 	}
-	baselineLostTotal += d.baselineLost
 	return d.diffs, d.nStr, d.nStm
 }
